@@ -34,6 +34,8 @@ func C14(c *core.Ctx) {
 	c14NilPointers(c)
 	c14OptionalMembers(c)
 	c14SelfPayload(c)
+	c14FuncMembers(c)
+	c14CurrencyExponents(c)
 	c14DocNilElems(c)
 	c14NilMapWrites(c)
 	c14Assertions(c)
